@@ -307,6 +307,50 @@ def _exc_bcj2(ctx, fn, prov, bb, place, bad):
                   '(checked)' % callers)
 
 
+def _retry_idiom(ctx, fn, prov, bb, place, bad):
+    """Generic, checked exception: `Err(e) if e is Interrupted => retry`. Every non-propagating path
+    must (a) run under a test that the payload is the Interrupted kind/variant and (b) end inside a
+    loop that contains the call which produced the Result (the call is re-issued)."""
+    # the call that produced the Result
+    src_blocks = [bi for (bi, si, k, node) in fn.whole_defs(place['l']) if k == 'call']
+    if not src_blocks:
+        return False, ''
+    loops = [body for h, body in fn.loops().items() if src_blocks[0] in body]
+    if not loops:
+        return False, ''
+    body = min(loops, key=len)
+    for (kind, endb, path) in bad:
+        if endb not in body:
+            return False, ''
+        hit = False
+        for (sb, tgt) in path:
+            t = fn.blocks[sb]['term']
+            cond = prov.operand(t['discr'], 0, '%d:T' % sb)
+            # std: PartialEq::eq(&e.kind(), &ErrorKind::Interrupted) == true
+            txt = expr_str(cond)
+            if 'Interrupted' in txt and 'kind' in txt:
+                from lzlint.core import switch_edges
+                e = switch_edges(fn, sb)
+                if e is not None and tgt == e[1]:
+                    hit = True
+            # no_std: match on the payload enum, arm = Interrupted variant
+            dl = op_local(t['discr'])
+            dd = fn.whole_defs(dl) if dl is not None else []
+            if len(dd) == 1 and dd[0][2] == 'assign' and dd[0][3]['rv']['r'] == 'discr':
+                p = dd[0][3]['rv']['p']
+                if p['ty'].endswith('Error') and p['l'] == place['l']:
+                    adt = ctx.facts.adt('Error')
+                    if adt:
+                        idx = [v['idx'] for v in adt['variants'] if v['name'] == 'Interrupted']
+                        arms = {a[1]: int(a[0]) for a in t['arms']}
+                        if idx and arms.get(tgt) == idx[0]:
+                            hit = True
+        if not hit:
+            return False, ''
+    return True, ('retry idiom: the dropped error is only the Interrupted kind (checked on the path conditions) and the call '
+                  'that produced it is re-issued by the enclosing loop')
+
+
 EXCEPTIONS = {
     'LZMAReader::read_decode:on-Err-of:decode': _exc_end_marker,
     'Bcj2Decoder::decode:on-Err-of:read_u32_be': _exc_bcj2,
@@ -358,6 +402,10 @@ def run_err_swallow(ctx, scope=None):
                 if ok:
                     ctx.exception(key, where, reason)
                     continue
+            ok, reason = _retry_idiom(ctx, fn, prov, bb, place, bad)
+            if ok:
+                ctx.exception(key, where, reason)
+                continue
             ctx.violation(key, where, 'an Err of %s is turned into data or success (%s): the error never reaches '
                           'the caller' % (src, ', '.join(kinds)))
     return nsite
